@@ -363,7 +363,15 @@ func c20Drive(args []string) int {
 		}{
 			{"csv2", csvCtx, "a1,b1,c1\na2,b2,c2\na3,b3,c3\n", []string{`{"A":"a1","B":"b1","C":"c1"}`, `{"A":"a2","B":"b2","C":"c2"}`, `{"A":"a3","B":"b3","C":"c3"}`}},
 			{"fixedlength2", fixCtx, "a1b1\na2b2\n", []string{`{"A":"a1","B":"b1"}`, `{"A":"a2","B":"b2"}`}},
-			{"edi", ediCtx, "S*a1*b1~S*a2*b2~", []string{`{"A":"a1","B":"b1"}`, `{"A":"a2","B":"b2"}`}}}
+			{"edi", ediCtx, "S*a1*b1~S*a2*b2~", []string{`{"A":"a1","B":"b1"}`, `{"A":"a2","B":"b2"}`}},
+			{"csv (legacy)", `{"parser_settings": {"version": "omni.2.1", "file_format_type": "csv"},
+ "file_declaration": {"delimiter": ",", "data_row_index": 1, "columns": [{"name": "A"}, {"name": "B"}]},
+ "transform_declarations": {"FINAL_OUTPUT": {"custom_func": {"name": "javascript_with_context", "args": [{"const": "_node"}]}}}}`,
+				"a1,b1\na2,b2\na3,b3\n", []string{`{"A":"a1","B":"b1"}`, `{"A":"a2","B":"b2"}`, `{"A":"a3","B":"b3"}`}},
+			{"fixed-length (legacy)", `{"parser_settings": {"version": "omni.2.1", "file_format_type": "fixed-length"},
+ "file_declaration": {"envelopes": [{"columns": [{"name": "A", "start_pos": 1, "length": 2}, {"name": "B", "start_pos": 3, "length": 2}]}]},
+ "transform_declarations": {"FINAL_OUTPUT": {"custom_func": {"name": "javascript_with_context", "args": [{"const": "_node"}]}}}}`,
+				"a1b1\na2b2\na3b3\n", []string{`{"A":"a1","B":"b1"}`, `{"A":"a2","B":"b2"}`, `{"A":"a3","B":"b3"}`}}}
 		prior := []struct{ name, schema, in string }{{"nothing", "", ""}, {"a JSON transform", typed, typedIn}, {"a namespaced XML transform", nsX, nsIn}}
 		old := debug.SetGCPercent(-1)
 		for _, pr := range prior {
